@@ -1,6 +1,9 @@
 package main
 
 import (
+	"github.com/foxboron/go-uefi/efi"
+	"os"
+	"syscall"
 	"bytes"
 	"crypto"
 	"crypto/x509"
@@ -125,6 +128,9 @@ func c15Run(op string, k int, mode string, in []byte) (res string, after []strin
 	case "fs/WriteVar", "fs/WriteEfivars-legacy", "fs/WriteSignedUpdate":
 		rec := newRecFs(afero.NewMemMapFs())
 		rec.plan.k, rec.plan.short, rec.plan.silent = k, short, silent
+		if mode == "eintr-always" {
+			rec.plan.k, rec.plan.writeErr = -1, syscall.EINTR
+		}
 		var err error
 		switch op {
 		case "fs/WriteVar":
@@ -140,6 +146,25 @@ func c15Run(op string, k int, mode string, in []byte) (res string, after []strin
 			err = e.Open().WriteSignedUpdate(dbVar, rawValue(in), signer, cert)
 		}
 		fsAfter(rec)
+		return errRes(err), after, true, ncalls
+	case "fs/efi.Getdb-legacy":
+		// the legacy getter of package efi: "the variable does not exist" (a failing open) is an empty
+		// database by design; every other failure is an error, whatever errno it carries
+		base := afero.NewMemMapFs()
+		afero.WriteFile(base, path, append([]byte{0x27, 0, 0, 0}, in...), 0644)
+		rec := newRecFs(base)
+		rec.plan.k = k
+		injectedKind = nil
+		if mode == "enoent" {
+			injectedKind = &os.PathError{Op: "read", Path: path, Err: syscall.ENOENT}
+		}
+		defer func() { injectedKind = nil }()
+		efs.SetFS(rec)
+		db, err := efi.Getdb()
+		fsAfter(rec)
+		if err == nil && (db == nil || !bytes.Equal(db.Bytes(), in)) {
+			return "ok-wrong-value", after, true, ncalls
+		}
 		return errRes(err), after, true, ncalls
 	case "fs/GetVarWithAttributes", "fs/GetVar", "fs/ReadEfivars-legacy", "fs/Getdb":
 		base := afero.NewMemMapFs()
@@ -242,7 +267,7 @@ func init() {
 		return []string{res, strings.Join(after, ","), b01(same), fmt.Sprint(n), strings.Join(lastKinds, ",")}
 	}
 	checkers["C15"] = checker{
-		rule: "operations: SignPKCS7, SignAuthenticode, PECOFFBinary.Sign, SignEFIVariable, WriteSignedUpdate with a failing crypto.Signer; WriteVar, attributes.WriteEfivars, WriteSignedUpdate, GetVar, GetVarWithAttributes, attributes.ReadEfivars, Getdb over a fault-injecting afero.Fs; Parse, Hash, Sign, Verify over a fault-injecting io.ReaderAt; for each operation and input a fault-free run in the sandboxed worker counts the dependency calls, then EVERY position k of that sequence is failed in turn (errors; for the write also a short count with and without an error; for reads of a variable also a legal short read, alone (the value must still be right) and followed by failing reads; for image reads also part of the data together with the error, and after Parse a source that ends early, with or without part of the data): exhaustive for the sequences the operation issues; the order of the calls of every fault-free run is compared with the program model's (extracted check_call_order: open, [stat, reads,] write, close; the signer before any file-system call); R_C15 (extracted check_fault) requires: no success and no digest, only Close after a failed file-system call, the image object unchanged after a failed Sign, no file-system call after a failed signer, process alive (worker class return); non-trivial = every fault position, distinct by (operation, k, mode, input)",
+		rule: "operations: SignPKCS7, SignAuthenticode, PECOFFBinary.Sign, SignEFIVariable, WriteSignedUpdate with a failing crypto.Signer; WriteVar, attributes.WriteEfivars, WriteSignedUpdate, GetVar, GetVarWithAttributes, attributes.ReadEfivars, Getdb over a fault-injecting afero.Fs; Parse, Hash, Sign, Verify over a fault-injecting io.ReaderAt; for each operation and input a fault-free run in the sandboxed worker counts the dependency calls, then EVERY position k of that sequence is failed in turn (errors; for the write also a short count with and without an error, and a write that is interrupted (EINTR) however often it is tried; for reads of a variable also a legal short read, alone (the value must still be right) and followed by failing reads; for image reads also part of the data together with the error, and after Parse a source that ends early, with or without part of the data): exhaustive for the sequences the operation issues; the order of the calls of every fault-free run is compared with the program model's (extracted check_call_order: open, [stat, reads,] write, close; the signer before any file-system call); R_C15 (extracted check_fault) requires: no success and no digest, only Close after a failed file-system call, the image object unchanged after a failed Sign, no file-system call after a failed signer, process alive (worker class return); non-trivial = every fault position, distinct by (operation, k, mode, input)",
 		run:  runC15,
 	}
 }
@@ -279,7 +304,7 @@ func runC15(c *Ctx) {
 		{"sign/SignPKCS7", dbs, false}, {"sign/SignAuthenticode", dbs, false}, {"sign/SignEFIVariable", dbs, false},
 		{"sign/PECOFFBinary.Sign", images, false}, {"sign/WriteSignedUpdate", dbs, false},
 		{"fs/WriteVar", dbs, true}, {"fs/WriteEfivars-legacy", dbs, true}, {"fs/WriteSignedUpdate", dbs, true},
-		{"fs/GetVarWithAttributes", dbs, false}, {"fs/GetVar", dbs, false}, {"fs/ReadEfivars-legacy", dbs, false}, {"fs/Getdb", dbs, false},
+		{"fs/GetVarWithAttributes", dbs, false}, {"fs/GetVar", dbs, false}, {"fs/ReadEfivars-legacy", dbs, false}, {"fs/Getdb", dbs, false}, {"fs/efi.Getdb-legacy", dbs, false},
 		{"reader/Parse", append(append([][]byte{}, images...), signed...), false}, {"reader/Hash", append(append([][]byte{}, images...), signed...), false}, {"reader/Sign", append(append([][]byte{}, images...), signed...), false}, {"reader/Verify", signed, false},
 	}
 	for _, f := range fams {
@@ -307,10 +332,13 @@ func runC15(c *Ctx) {
 			c.Rep.Histogram["calls/"+f.op] += n
 			modes := []string{"fail"}
 			if f.short {
-				modes = append(modes, "short", "short-noerr")
+				modes = append(modes, "short", "short-noerr", "eintr-always")
 			}
 			if strings.HasPrefix(f.op, "fs/Get") || f.op == "fs/ReadEfivars-legacy" {
 				modes = append(modes, "short-read", "short-read-then-fail")
+			}
+			if f.op == "fs/efi.Getdb-legacy" {
+				modes = append(modes, "enoent")
 			}
 			if strings.HasPrefix(f.op, "reader/") {
 				modes = append(modes, "partial")
@@ -330,8 +358,8 @@ func runC15(c *Ctx) {
 					} else {
 						res = o.Class
 					}
-					if res == "n/a" {
-						continue
+					if res == "n/a" || (f.op == "fs/efi.Getdb-legacy" && k == 0 && mode == "enoent") {
+						continue // a failing open with ENOENT is "no such variable": an empty database by design
 					}
 					resOK := res != "err"
 					if mode == "short-read" {
